@@ -1,5 +1,263 @@
-/- C02 — theorems under construction. -/
-import BEI.Model.App
+/-
+  C02 — Every activation episode is closed exactly once, also on deactivation.
+-/
+import BEI.Proofs.Mirror
 namespace BEI.Props.C02
-theorem placeholder_true : True := trivial
+open BEI
+
+/-- episode automaton over the per-frame event lists of one (entity, action): idle, or open with the last state -/
+inductive Ep where
+  | idle | openOngoing | openFired
+  deriving DecidableEq, Repr
+
+/-- one frame's events drive the automaton; `none` = the list is not allowed in this state -/
+def Ep.step : Ep → List EvKind → Option Ep
+  | .idle, [] => some .idle
+  | .idle, [.started, .ongoing] => some .openOngoing
+  | .idle, [.started, .fired] => some .openFired
+  | .openOngoing, [.ongoing] => some .openOngoing
+  | .openOngoing, [.fired] => some .openFired
+  | .openOngoing, [.canceled] => some .idle
+  | .openFired, [.fired] => some .openFired
+  | .openFired, [.ongoing] => some .openOngoing
+  | .openFired, [.completed] => some .idle
+  | _, _ => none
+
+/-- the automaton state that corresponds to an action state -/
+def Ep.ofState : AState → Ep
+  | .none => .idle | .ongoing => .openOngoing | .fired => .openFired
+
+/-- (1a) one frame: the events of the transition (extracted table) are accepted and lead to the state of the new action state -/
+theorem step_accepts (p c : AState) : (Ep.ofState p).step (eventsOf p c) = some (Ep.ofState c) := by
+  cases p <;> cases c <;> decide
+
+/-- running the automaton over a history of per-frame event lists -/
+def Ep.run : Ep → List (List EvKind) → Option Ep
+  | s, [] => some s
+  | s, evs :: rest => match s.step evs with
+    | some s' => Ep.run s' rest
+    | none => none
+
+/-- the per-frame event lists of a state history starting in `p` -/
+def historyEvents : AState → List AState → List (List EvKind)
+  | _, [] => []
+  | p, c :: rest => eventsOf p c :: historyEvents c rest
+
+/-- (1) for **every** state history (any length) the delivered events form well-formed episodes: Started, then exactly
+    one Ongoing or Fired per frame, then exactly one Canceled (last state Ongoing) or Completed (last state Fired),
+    and nothing outside episodes -/
+theorem episodes_wf (p : AState) (hist : List AState) :
+    (Ep.ofState p).run (historyEvents p hist) = some (Ep.ofState (hist.getLast?.getD p)) := by
+  induction hist generalizing p with
+  | nil => rfl
+  | cons c rest ih =>
+    simp only [historyEvents, Ep.run, step_accepts]
+    rw [ih c]
+    cases rest with
+    | nil => rfl
+    | cons x xs =>
+      simp only [List.getLast?_cons_cons]
+      cases h : (x :: xs).getLast? with
+      | none => simp at h
+      | some y => rfl
+
+/-- exactly one of Ongoing / Fired on every frame inside an episode, and a terminal event exactly when leaving it -/
+theorem one_progress_event (p c : AState) (hc : c ≠ .none) :
+    ((eventsOf p c).filter (fun k => k == .ongoing || k == .fired)).length = 1
+    ∧ (eventsOf p c).all (fun k => k != .canceled && k != .completed) = true := by
+  cases p <;> cases c <;> first | exact absurd rfl hc | decide
+
+theorem terminal_event (p : AState) (hp : p ≠ .none) :
+    eventsOf p .none = [if p = .fired then .completed else .canceled] := by
+  cases p <;> first | exact absurd rfl hp | decide
+
+/-- (2) deactivation: the closing deliveries of one action — nothing if it rests in None, otherwise exactly one terminal
+    event per affected entity (Canceled after Ongoing, Completed after Fired) with state None and the zero value of the
+    action's dimension; it drives the automaton to idle -/
+theorem closing_events (a : Nat) (d : ActionData) (t : Tick) (dim : Dim) (es : List Nat) :
+    triggerEvents a (d.update t .none (Value.zero dim)) es =
+      match d.state with
+      | .none => []
+      | .ongoing => es.map (fun e => mkDelivery a (d.update t .none (Value.zero dim)) .canceled e)
+      | .fired => es.map (fun e => mkDelivery a (d.update t .none (Value.zero dim)) .completed e) := by
+  have e1 : eventsOf .none .none = [] := by decide
+  have e2 : eventsOf .ongoing .none = [.canceled] := by decide
+  have e3 : eventsOf .fired .none = [.completed] := by decide
+  cases hs : d.state <;> simp [triggerEvents, ActionData.update, hs, e1, e2, e3]
+
+theorem closing_payload (a : Nat) (d : ActionData) (t : Tick) (dim : Dim) (k : EvKind) (e : Nat) :
+    (mkDelivery a (d.update t .none (Value.zero dim)) k e).state = .none
+    ∧ (mkDelivery a (d.update t .none (Value.zero dim)) k e).value = Value.zero dim := by
+  cases k <;> simp [mkDelivery, ActionData.update]
+
+theorem closing_closes (s : AState) : (Ep.ofState s).step (eventsOf s .none) = some .idle := step_accepts s .none
+
+/-- (3) what `trigger_removed` delivers for a whole instance: the closing events of each bound action, in binding order -/
+theorem triggerRemoved_spec (ci : ContextInstance) (t : Tick) (es : List Nat) (dl : List Delivery)
+    (h : ci.triggerRemoved t es = some dl) :
+    ∃ ds : List ActionData, ds.length = ci.bindings.length
+      ∧ (∀ i (hi : i < ci.bindings.length) (hj : i < ds.length), ci.actions.get? (ci.bindings[i]).action = some ds[i])
+      ∧ dl = ((ci.bindings.zip ds).flatMap (fun p => triggerEvents p.1.action (p.2.update t .none (Value.zero p.1.dim)) es)) := by
+  unfold ContextInstance.triggerRemoved at h
+  -- generalise the accumulator of the fold
+  have key : ∀ (bs : List ActionBind) (acc : List Delivery) (dl : List Delivery),
+      bs.foldlM (fun acc ab => match ci.actions.get? ab.action with
+        | none => none
+        | some d => some (acc ++ triggerEvents ab.action (d.update t .none (Value.zero ab.dim)) es)) acc = some dl →
+      ∃ ds : List ActionData, ds.length = bs.length
+        ∧ (∀ i (hi : i < bs.length) (hj : i < ds.length), ci.actions.get? (bs[i]).action = some ds[i])
+        ∧ dl = acc ++ ((bs.zip ds).flatMap (fun p => triggerEvents p.1.action (p.2.update t .none (Value.zero p.1.dim)) es)) := by
+    intro bs
+    induction bs with
+    | nil => intro acc dl h; simp at h; exact ⟨[], rfl, by simp, by simp [h]⟩
+    | cons b bs ih =>
+      intro acc dl h
+      simp only [List.foldlM_cons] at h
+      cases hg : ci.actions.get? b.action with
+      | none => simp [hg] at h
+      | some d =>
+        simp only [hg] at h
+        simp only [bind, Option.bind] at h
+        obtain ⟨ds, hl, hget, hdl⟩ := ih _ _ h
+        refine ⟨d :: ds, by simp [hl], ?_, ?_⟩
+        · intro i hi hj
+          cases i with
+          | zero => simpa using hg
+          | succ n => simpa using hget n (by simpa using hi) (by simpa using hj)
+        · rw [hdl]; simp [List.append_assoc]
+  obtain ⟨ds, h1, h2, h3⟩ := key ci.bindings [] dl h
+  exact ⟨ds, h1, h2, by simpa using h3⟩
+
+/-- (4) removing the component closes for exactly the leaving entity: the deliveries of `remove` are the closing events
+    of *its* instance addressed to that entity alone, and afterwards the lookup fails -/
+theorem remove_closes (su : Setup) (st : AppState) (hreach : Reachable su st) (e c : Nat) (st' : AppState) (dl : List Delivery)
+    (hhas : st.world.has e c = true) (hop : applyOp su st (.remove e c) = some (st', dl)) :
+    (∃ ctx, st.reg.get c e = some ctx ∧ ctx.triggerRemoved st.tick [e] = some dl)
+    ∧ st'.reg.get c e = none
+    ∧ (∀ d ∈ dl, d.entity = e) := by
+  have hst' : Reachable su st' := Reachable.op st _ st' dl hreach hop
+  have hm := reachable_pred su Mirror (mirror_appPred su) mirror_init st hreach
+  simp only [applyOp] at hop
+  split at hop
+  · rename_i hcond
+    have hal : st.world.alive e = true := by
+      cases ha : st.world.alive e
+      · have := World.comps_of_not_alive st.world e ha
+        simp [World.has_def, this] at hhas
+      · rfl
+    simp [hal, hhas] at hcond
+  · split at hop
+    · cases hop
+    · rename_i reg' dl' hr
+      simp only [Option.some.injEq, Prod.mk.injEq] at hop
+      obtain ⟨hop1, hop2⟩ := hop
+      subst hop2
+      obtain ⟨gi, g, ctx, hidx, hg, hctx, htr, _⟩ := remove_char _ _ _ _ _ _ hr
+      refine ⟨⟨ctx, ?_, htr⟩, ?_, ?_⟩
+      · simp only [Registry.get, hidx, hg]
+        cases g <;> simpa [Group.ctxOf] using hctx
+      · have hm' := reachable_pred su Mirror (mirror_appPred su) mirror_init st' hst'
+        cases hget : st'.reg.get c e with
+        | none => rfl
+        | some x =>
+          exfalso
+          have hsome : (st'.reg.get c e).isSome := by simp [hget]
+          rw [get_iff_memS _ hm'.wf, hm'.mirror] at hsome
+          rw [← hop1] at hsome
+          simp only [World.has_def, World.comps_setComps, if_true] at hsome
+          split at hsome <;> simp at hsome
+      · intro d hd
+        obtain ⟨ds, _, _, hdl⟩ := triggerRemoved_spec ctx st.tick [e] dl' htr
+        rw [hdl] at hd
+        simp only [List.mem_flatMap, triggerEvents, List.mem_map, List.mem_singleton] at hd
+        obtain ⟨p, _, k, _, e', he', hd⟩ := hd
+        subst he'; subst hd
+        cases k <;> rfl
+
+/-- (5) a rebuild closes every holder of a shared instance (all holders receive the terminal events of every bound
+    action) and installs an instance built from scratch; for an exclusive type every per-entity instance is closed for
+    its own entity and replaced -/
+theorem rebuild_shared_closes (reg : Registry) (mk : Factory) (t : Tick) (c gi : Nat) (ty : CtxType) (es : List Nat)
+    (ctx : ContextInstance) (hi : reg.index c = some gi) (hg : reg[gi]? = some (.shared ty es ctx))
+    (reg' : Registry) (dl : List Delivery) (hr : reg.rebuild mk t c = some (reg', dl)) :
+    ctx.triggerRemoved t es = some dl ∧ ∃ e0, es.head? = some e0 ∧ reg' = reg.set gi (.shared ty es (mk c e0)) := by
+  simp only [Registry.rebuild, hi, hg] at hr
+  split at hr
+  · rename_i dl' e0 h1 h2
+    simp only [Option.some.injEq, Prod.mk.injEq] at hr
+    exact ⟨by rw [h1, hr.2], e0, h2, hr.1.symm⟩
+  · cases hr
+
+theorem rebuild_exclusive_closes (mk : Factory) (t : Tick) (c : Nat) :
+    ∀ (is is' : List (Nat × ContextInstance)) (dl : List Delivery),
+      Registry.rebuildExclusive mk t c is = some (is', dl) →
+      is' = is.map (fun p => (p.1, mk c p.1))
+      ∧ ∃ dls : List (List Delivery), dls.length = is.length ∧ dl = dls.flatten
+          ∧ ∀ i (h1 : i < is.length) (h2 : i < dls.length), (is[i]).2.triggerRemoved t [(is[i]).1] = some dls[i] := by
+  intro is
+  induction is with
+  | nil => intro is' dl h; simp [Registry.rebuildExclusive] at h; exact ⟨by simp [h.1], [], rfl, by simp [h.2], by simp⟩
+  | cons p ps ih =>
+    intro is' dl h
+    obtain ⟨e, ctx⟩ := p
+    simp only [Registry.rebuildExclusive] at h
+    split at h
+    · rename_i dl1 rest' dl2 h1 h2
+      simp only [Option.some.injEq, Prod.mk.injEq] at h
+      obtain ⟨hr1, dls, hl, hd, hget⟩ := ih _ _ h2
+      refine ⟨by rw [← h.1, hr1]; rfl, dl1 :: dls, by simp [hl], by rw [← h.2, hd]; rfl, ?_⟩
+      intro i hi1 hi2
+      cases i with
+      | zero => simpa using h1
+      | succ n => simpa using hget n (by simpa using hi1) (by simpa using hi2)
+    · cases h
+
+/-- (6) the command queue delivers every queued event exactly once, in order, when no observer reacts -/
+theorem queue_plain (su : Setup) : ∀ (ds : List Delivery) (fuel : Nat) (st : AppState) (k : Nat) (seen : List Delivery),
+    ds.length < fuel →
+    runQueue su [] fuel (ds.map QItem.deliver) st k seen = some (st, k + ds.length, seen ++ ds) := by
+  intro ds
+  induction ds with
+  | nil => intro fuel st k seen h; cases fuel with
+    | zero => simp at h
+    | succ n => simp [runQueue]
+  | cons d ds ih =>
+    intro fuel st k seen h
+    cases fuel with
+    | zero => simp at h
+    | succ n =>
+      simp only [List.map_cons, runQueue, List.filter_nil, List.map_nil, List.nil_append]
+      rw [ih n st (k + 1) (seen ++ [d]) (by simpa using h)]
+      simp [Nat.add_assoc, Nat.add_comm 1]
+
+/-- what was delivered is never lost: the deliveries seen so far stay a prefix of the final sequence, whatever the
+    observers do (reactions only ever *add* closing events) -/
+theorem queue_seen_prefix (su : Setup) (reacts : Reactions) :
+    ∀ (fuel : Nat) (stack : List QItem) (st : AppState) (k : Nat) (seen : List Delivery) st' k' seen',
+      runQueue su reacts fuel stack st k seen = some (st', k', seen') → seen <+: seen' := by
+  intro fuel
+  induction fuel with
+  | zero => intro stack st k seen st' k' seen' h; simp [runQueue] at h; rw [h.2.2]; exact List.prefix_refl _
+  | succ n ih =>
+    intro stack st k seen st' k' seen' h
+    cases stack with
+    | nil => simp [runQueue] at h; rw [h.2.2]; exact List.prefix_refl _
+    | cons item rest =>
+      cases item with
+      | deliver d =>
+        simp only [runQueue] at h
+        exact List.IsPrefix.trans (List.prefix_append seen [d]) (ih _ _ _ _ _ _ _ h)
+      | op o =>
+        simp only [runQueue] at h
+        split at h
+        · cases h
+        · exact ih _ _ _ _ _ _ _ h
+
+/-- a deactivation requested from inside an observer: its closing events are put at the *front* of the queue — they
+    overtake the rest of the frame's events (as the property allows) and each is still delivered exactly once -/
+theorem reaction_closing_first (su : Setup) (reacts : Reactions) (fuel : Nat) (o : Op) (rest : List QItem)
+    (st st2 : AppState) (dl : List Delivery) (k : Nat) (seen : List Delivery) (hop : applyOp su st o = some (st2, dl)) :
+    runQueue su reacts (fuel + 1) (.op o :: rest) st k seen = runQueue su reacts fuel (dl.map QItem.deliver ++ rest) st2 k seen := by
+  simp [runQueue, hop]
+
 end BEI.Props.C02
